@@ -5,7 +5,7 @@ Nothing here reads a fixture; a document is described by a *recipe*, a JSON-able
 record specs in file order (bottom of the layer stack first):
 
     {"t": "leaf",  "keys": ["TYPE_TOOL_OBJECT_SETTING", ...], "clip": bool, "pdi": bool,
-                   "blend": "NORMAL", "name": "..."}
+                   "blend": "NORMAL", "name": "...", "flags": {"visible": false, ...}}   # any LayerFlags field
     {"t": "bound", "via": "sds"|"nsds"|"both"}                       # BOUNDING_SECTION_DIVIDER record
     {"t": "close", "folder": "open"|"closed", "via": "sds"|"nsds"|"both"|"nsds-over-other",
                    "artboard": [] | ["ARTBOARD_DATA1", ...], "clip": bool,
@@ -96,6 +96,9 @@ def make_record(spec, index=0):
         rec.tagged_blocks[key] = TaggedBlock(key=key, data=block_data(key))
     rec.clipping = Clipping.NON_BASE if spec.get("clip") else Clipping.BASE
     rec.flags = LayerFlags(pixel_data_irrelevant=bool(spec.get("pdi")))
+    for fname, fval in (spec.get("flags") or {}).items():
+        if hasattr(rec.flags, fname):           # a renamed flag is simply not set (the caller compares with the table)
+            setattr(rec.flags, fname, bool(fval))
     rec.channel_info = [ChannelInfo(id=i - 1, length=2) for i in range(4)]
     ch = ChannelDataList()
     for _ in range(4):
